@@ -1,5 +1,5 @@
 SPECIFICATION Spec
 CONSTANTS
-  RunNames = {"dev"}
+  Tier = "thorough"
   ScriptOf <- NoScript
-INVARIANTS Limits Partition
+INVARIANTS Bounded
